@@ -516,3 +516,73 @@ def bounded_collocate(rng, tier):
             elif len(samples) < 3 and want:
                 samples.append(dict(case, pairs=len(want)))
     return {"evaluations": evals, "distinct_nontrivial": len(distinct), "failures": failures[:5], "samples": samples}
+
+
+@bounded(P, "prebinned-path-vs-brute-force", "the temporally pre-binned path of collocate() (more than 10^6 candidate pairs: 1100 x 1000 and "
+         "1000 x 1100 points) with time stamps on a whole-minute raster (many points exactly on bin edges and exactly max_interval before "
+         "them), bin_factor in {0.5, 1, 2}, both size orderings; oracle: vectorised O(n*m) search; 3 (quick) / 12 (thorough) dataset pairs")
+def bounded_prebinned(rng, tier):
+    import warnings
+    import xarray as xr
+    from typhon.constants import earth_radius
+    rounds = 3 if tier == "quick" else 12
+    evals, failures, samples, distinct = 0, [], [], set()
+    R = earth_radius / 1000.0
+    t0 = _np.datetime64("2020-03-01T00:00:00", "ns")
+
+    def mk(nprng, n, raster_s):
+        lat = 50 + nprng.normal(size=n) * 0.6
+        lon = 10 + nprng.normal(size=n) * 0.9
+        t = t0 + (nprng.randint(0, 3 * 3600 // raster_s, size=n) * raster_s).astype("timedelta64[s]")
+        return xr.Dataset({"lat": ("collocation", lat), "lon": ("collocation", lon), "time": ("collocation", t.astype("datetime64[ns]")),
+                           "id": ("collocation", _np.arange(n))}, coords={"collocation": _np.arange(n)})
+
+    def unit(ds):
+        la, lo = _np.radians(ds.lat.values), _np.radians(ds.lon.values)
+        return _np.stack([_np.cos(la) * _np.cos(lo), _np.cos(la) * _np.sin(lo), _np.sin(la)], axis=1)
+    for r in range(rounds):
+        nprng = _np.random.RandomState(rng.randint(0, 2**31 - 1))
+        n1, n2 = (1100, 1000) if r % 2 == 0 else (1000, 1100)
+        raster = rng.choice([60, 300])
+        a, b = mk(nprng, n1, raster), mk(nprng, n2, raster)
+        minutes = rng.choice([5, 10])
+        km = 3.0
+        bf = rng.choice([0.5, 1, 2])
+        ua, ub = unit(a), unit(b)
+        d = R * _np.sqrt(((ua[:, None, :] - ub[None, :, :]) ** 2).sum(axis=2))
+        dt = _np.abs(a.time.values.astype("int64")[:, None] - b.time.values.astype("int64")[None, :])
+        ok = (d <= km) & (dt < minutes * 60 * 10**9)
+        edge = (_np.abs(d - km) <= 1e-6 * km)
+        want = {(int(i), int(j)) for i, j in zip(*_np.nonzero(ok & ~edge))}
+        skip = {(int(i), int(j)) for i, j in zip(*_np.nonzero(edge))}
+        evals += 1
+        distinct.add((r, n1, n2, raster, minutes, bf))
+        case = {"round": r, "n1": n1, "n2": n2, "raster_s": raster, "max_interval": "%d min" % minutes, "bin_factor": bf, "true_pairs": len(want)}
+        try:
+            with warnings.catch_warnings():
+                warnings.simplefilter("ignore")
+                res = Collocator().collocate(a, b, max_distance=km, max_interval="%d min" % minutes, bin_factor=bf)
+        except Exception as exc:
+            failures.append(dict(case, problem="exception %r" % (exc,)))
+            continue
+        got = []
+        if res is not None:
+            p = res["Collocations/pairs"].values
+            got = list(zip(res["primary/id"].values[p[0]].tolist(), res["secondary/id"].values[p[1]].tolist()))
+            dist = res["Collocations/distance"].values
+            wrong = [(k, float(dist[q]), float(d[k])) for q, k in enumerate(got) if abs(dist[q] - d[k]) > 1e-6 * (1 + d[k])]
+        else:
+            wrong = []
+        problems = []
+        if len(got) != len(set(got)):
+            problems.append("a pair is reported twice")
+        if (set(got) - skip) != want:
+            problems.append("pairs differ from the brute-force search: %d missing, %d extra (e.g. %s / %s)"
+                            % (len(want - set(got)), len((set(got) - skip) - want), sorted(want - set(got))[:2], sorted((set(got) - skip) - want)[:2]))
+        if wrong:
+            problems.append("stored distances belong to other pairs: %s" % (wrong[:2],))
+        if problems:
+            failures.append(dict(case, problem="; ".join(problems)))
+        elif len(samples) < 3:
+            samples.append(case)
+    return {"evaluations": evals, "distinct_nontrivial": len(distinct), "failures": failures[:5], "samples": samples}
